@@ -45,6 +45,9 @@ type sharedPacketConn struct {
 	closeOnce sync.Once
 
 	readDeadline atomic.Pointer[time.Time]
+	// writeDeadlineSet records that this handle armed the write deadline, which the
+	// underlying connection shares between all handles.
+	writeDeadlineSet atomic.Bool
 }
 
 // newSharedPacketConn increments the shared refcount and returns a wrapper.
@@ -131,6 +134,8 @@ func (s *sharedPacketConn) SetWriteDeadline(t time.Time) error {
 		return io.ErrClosedPipe
 	}
 
+	s.writeDeadlineSet.Store(!t.IsZero())
+
 	return s.underlying.SetWriteDeadline(t)
 }
 
@@ -159,6 +164,10 @@ func (s *sharedPacketConn) Close() error {
 		s.cancel()
 		if s.refs.Add(-1) <= 0 {
 			err = s.underlying.Close()
+		} else if s.writeDeadlineSet.Load() {
+			// The deadline this handle armed (e.g. to abort its own I/O before closing)
+			// must not outlive it: the siblings share the underlying connection.
+			_ = s.underlying.SetWriteDeadline(time.Time{})
 		}
 	})
 	if !fired {
